@@ -19,6 +19,104 @@ func runC16Gaps2(c *eng.Ctx) {
 	c16gConfigWrite(c)
 	c16gIssuerRevokeOnce(c)
 	c16gMemberEntriesPulled(c)
+	c16gWorkFlags(c)
+}
+
+// ---- C16.2: the "needs work" flags of the CRL builder. A flag that records pending work
+// (dirty: the revocation configuration must be re-read; invalidate: the CRL modification time must
+// be flushed; forceRebuild is handled in c16Rebuild) is cleared only across the success edge of that
+// work, or, when it is cleared up front, set again on every failure edge of the work. Otherwise one
+// transient storage error makes the builder keep its previous state for good (seed C16-f: a stale
+// auto_rebuild=true after config/crl said false, so revocations never reach the served CRL).
+func c16gWorkFlags(c *eng.Ctx) {
+	inPki := func(fn *ssa.Function) bool { return eng.InPkg(fn, "pki") }
+	for _, h := range []struct {
+		field, fn, work string
+		nWork           int
+		why             string
+	}{
+		{"pki.crlBuilder.dirty", "pki.(*crlBuilder).reloadConfigIfRequired", `^pki\.\(\*storageContext\)\.getRevocationConfig$`, 1,
+			"the builder keeps the previous CRL configuration (e.g. auto_rebuild still on) although config/crl changed"},
+		{"pki.crlBuilder.invalidate", "pki.(*crlBuilder).flushCRLBuildTimeInvalidation", `^pki\.\(\*storageContext\)\.(getLocalCRLConfig|setLocalCRLConfig)$`, 2,
+			"the CRL modification time is never bumped and If-Modified-Since clients keep the stale CRL"},
+	} {
+		fv := c.P.Field(h.field)
+		if fv == nil {
+			c.Unresolved(h.field)
+			continue
+		}
+		short := h.field[strings.LastIndex(h.field, ".")+1:]
+		onFlag := func(cl ssa.CallInstruction) bool {
+			a := cl.Common().Args
+			if len(a) == 0 {
+				return false
+			}
+			ld, ok := a[0].(*ssa.UnOp)
+			if !ok {
+				return false
+			}
+			fa, ok := ld.X.(*ssa.FieldAddr)
+			return ok && eng.FieldVar(fa) == fv
+		}
+		clearsIn := func(fn *ssa.Function) (clears, sets []ssa.Instruction) {
+			for _, cl := range eng.Calls(fn, `^\(\*sync/atomic\.Bool\)\.(Store|CompareAndSwap|Swap)$`) {
+				if !onFlag(cl) {
+					continue
+				}
+				a := cl.Common().Args
+				if eng.Expr(a[len(a)-1]) == "true" {
+					sets = append(sets, cl)
+				} else {
+					clears = append(clears, cl)
+				}
+			}
+			return
+		}
+		// who may clear it
+		c.Clause("R1", "C16.2")
+		var sites []eng.CallSite
+		for _, fn := range c.P.Funcs {
+			if !inPki(fn) {
+				continue
+			}
+			cl, _ := clearsIn(fn)
+			for _, x := range cl {
+				sites = append(sites, eng.CallSite{Fn: fn, Call: x.(ssa.CallInstruction)})
+			}
+		}
+		c.CallerTable("clearing crlBuilder."+short, sites, map[string]string{h.fn: "cleared by the function that performs the pending work"}, 1)
+		f := c.Fn(h.fn)
+		if f == nil {
+			continue
+		}
+		clears, sets := clearsIn(f)
+		works := eng.Calls(f, h.work)
+		if !c.Floor(f, "clears of "+short, len(clears), 1) || !c.Floor(f, "fallible work guarded by "+short, len(works), h.nWork) {
+			continue
+		}
+		for _, w := range works {
+			wn := eng.CalleeName(w.Common())
+			ok := eng.CallOKEdges(w)
+			// is every clear behind the success edge of this work?
+			after := len(ok) > 0 && eng.Reach(eng.Query{Fn: f, Blocked: ok, Target: eng.IsTarget(clears)}) == nil
+			if after {
+				c.Clause("R3", "C16.2")
+				c.Cut(f, short+" cleared", clears, eng.Guard{Desc: "success edge of " + wn, Edges: ok, Pass: []ssa.Instruction{w}}, nil)
+				continue
+			}
+			c.Clause("R4", "C16.2")
+			fe := eng.CallFailEdges(w)
+			site := "on{" + wn + " failed} cleanup{" + short + ".Store(true)}"
+			switch {
+			case len(fe) == 0:
+				c.Violation(f, site, w.Pos(), "the flag "+short+" is cleared before "+wn+" whose error is not tested: when it fails the pending work is forgotten and "+h.why, nil)
+			case len(sets) == 0:
+				c.Violation(f, site, w.Pos(), "the flag "+short+" is cleared before "+wn+" succeeded and never set again in "+h.fn+": after one failed attempt the pending work is forgotten and "+h.why, nil)
+			default:
+				c.CleanupOnEdges(f, wn+" failed", fe, short+".Store(true)", sets)
+			}
+		}
+	}
 }
 
 // ---- C16.6: every member of an issuer set contributes the revocations recorded
